@@ -32,7 +32,9 @@ def Adm (sp : Spec.S) : Op → Prop
   | .stream n => n ≠ sstKey
   | .save w s o => NonEmpty w ∧ NonEmpty o ∧ s.len ≠ 0 ∧
       (sp.dirty = false → ∀ b, load (Spec.wsWrite (storeAll sp.m o) w sp.loaded) Facts.C12.sstPath = some b → s = b)
-  | .forget _ _ => False   -- DeleteSheet is outside the refinement: see `finding_deleted_spilled_part_survives`
+  | .forget n rels =>   -- DeleteSheet: a worksheet part and its rels part (which is never a spillable part)
+      n ≠ sstKey ∧ rels ≠ sstKey ∧ n ≠ Facts.C12.sstPath ∧ rels ≠ Facts.C12.sstPath ∧
+      isSheet rels = false ∧ isSST rels = false
   | _ => True
 
 def outOk : Out → Out → Prop
